@@ -349,6 +349,8 @@ of_status_t	of_ldpc_staircase_set_fec_parameters (of_ldpc_staircase_cb_t*	ofcb,
 				OF_PRINT_ERROR(("%s: ERROR: of_ldpc_staircase_decode_with_new_symbol() failed\n", __FUNCTION__))
 				goto error;
 			}
+			/* repair symbols are copied by the decoder, so the original is no longer needed */
+			of_free (null_symbol);
 		}
 	}
 #endif //OF_USE_DECODER
